@@ -371,6 +371,62 @@ pub fn run(ctx: &Ctx) -> Report {
         st = st.merge(st1c);
     }
 
+    // (4d) the session token is the carrier's own: header authentication without a token header but with an
+    //      X-Amz-Security-Token query parameter (a signed parameter like any other), and query authentication without
+    //      the parameter but with an X-Amz-Security-Token header -- the provider is asked without a token
+    {
+        let n4d = 2 * 2 * 3;
+        let base4d = total1 + total2 + 47_000_000;
+        let st4d = par_sweep(n4d, |i, st| {
+            let carrier = if i % 2 == 0 { Carrier::Header } else { Carrier::Query };
+            let in_body = (i / 2) % 2 == 1;
+            let decoy = ["SESSIONTOKEN", "tok/+=", ""][(i / 4) as usize];
+            let mut plan = e2e::base_plan(carrier);
+            let mut cfg = Cfg::basic(e2e::base_instant());
+            match carrier {
+                Carrier::Header => {
+                    let p = (b"X-Amz-Security-Token".to_vec(), decoy.as_bytes().to_vec());
+                    if in_body {
+                        plan.method = "POST".into();
+                        plan.headers.push(("Content-Type".into(), b"application/x-www-form-urlencoded".to_vec()));
+                        plan.signed.push("content-type".into());
+                        plan.body = refmodel::sign::spell_query(&[p.clone()]).into_bytes();
+                        plan.body_params = Some(vec![p]);
+                        cfg.fold = true;
+                    } else {
+                        plan.url_params.push(p);
+                    }
+                }
+                Carrier::Query => {
+                    if in_body {
+                        return;
+                    }
+                    plan.headers.push(("X-Amz-Security-Token".into(), decoy.as_bytes().to_vec()));
+                }
+            }
+            // a store indexed by (key, token): it holds the key without a token, and the key with the decoy under ANOTHER secret
+            let prov = ProvSpec::PairDb {
+                entries: vec![(e2e::ACCESS_KEY.to_string(), None, e2e::SECRET.to_string()), (e2e::ACCESS_KEY.to_string(), Some(decoy.to_string()), e2e::SECRET2.to_string())],
+                unknown: crate::env::ErrSpec::Sig("InvalidClientTokenId".into(), "unknown pair".into()),
+                principal: 0,
+            };
+            let case = Case { wire: WireReq::from_wire(&build(&plan).wire), cfg, prov };
+            let before = st.violations.len();
+            let j = e2e::judge_into(base4d + i, &case, st);
+            if st.violations.len() > before {
+                if let Some(v) = st.violations.last_mut() {
+                    v.what = format!("token-of-the-other-carrier({:?} authentication, decoy {:?}{}):{}", carrier, decoy, if in_body { " in a folded form body" } else { "" }, v.what);
+                }
+            }
+            if !j.unspecified && !j.reference.accepted() {
+                crate::core::machinery_error(&format!("C03 (4d): reference refuses: {:?}", j.reference.error));
+            }
+            st.state(&(j.reference.stage as u8, "token-decoy"));
+            st.nontrivial(&(carrier, in_body, decoy, "token-decoy"));
+        });
+        st = st.merge(st4d);
+    }
+
     // (4b) the provider decides: a key store indexed by the exact (access key, session token) pair that holds only
     //      some of the pairs and answers every other pair with an error; the request is refused with that error and the
     //      provider is asked once, for the pair of the request (no second question with another key or token)
@@ -513,7 +569,7 @@ pub fn run(ctx: &Ctx) -> Report {
     Report {
         stats: st,
         rule: format!(
-            "(1) five-part credentials: 12 date variants (exact, -1 day, +1 day, 7 digits, trailing space, extended, empty, written-local date, and the numerically equal spellings +D, 0D, 00D, D.0) x 12 near-misses each of region, service and terminator (exact, prefix, suffix, x+v, v+x, UPPER, empty, look-alike, trailing blank, leading blank, lower, case-swapped) x {} server (region, service) pairs (incl. a mixed-case one, empty strings, non-ASCII and 300-character values) x {} request instants (incl. 23:59:59Z, 00:00:00Z and offsets whose UTC date differs from the written date) x signing mode A (correctly signed under the credential's own scope; provider returns that key unconditionally) / B (signed under the server's scope) x carrier; (1b) timestamps ten minutes (or thirty seconds) from local midnight written with 12 offsets of either sign from 00:01 to 14:00 (sub-hour ones included), basic and extended, so that the UTC date differs from the written date: the credential dated with the UTC date is accepted, the one dated with the written date refused; (1c) timestamps on the last second of a UTC day with fractions of 1..13 nines, nine nines followed by each digit, and other fractions that a rounding reader would carry over: the date is that of the written second; (2) credentials of 1..8 parts, with leading/trailing/double slashes, empty access key and no slash at all, five-part credentials in which the slash between two adjacent elements is moved by one or two characters (their concatenation unchanged), and credentials whose correct five-part text ends exactly at / next to lengths 64 .. 65536 followed by a sixth part or a longer terminator; (3) every sequence of 1..3 validations on one thread over 50 symbols (5 server configurations, one differing from another in letter case only, x credential scoped for any of the 5 x carrier): each judged as if it were alone; (4) 9 access keys (case variant, inner / trailing blank, literal percent signs, non-ASCII, one character) x 10 session tokens (none, reserved characters, literal percent signs, inner blanks, commas, non-ASCII, 4 kB, case variant, trailing blank) x carrier x token signed or not: the provider is asked for exactly that access key and token; (4b) 6 access keys (incl. the AKIA / ASIA / AROA / AIDA prefixes of real key ids) x 3 tokens (none, a stale one, empty) x a key store indexed by the exact (key, token) pair holding each of the 16 subsets of (key alone, key with this token, key with another token, another key with this token) x every error it can answer an unknown pair with (all SignatureError kinds, an io::Error, a string) x 8 identities attached to its answers x carrier: refused with that error unless the store holds the request's own pair, and the store is asked exactly once; (4c) the server configured for each of 62 AWS region codes / pseudo-regions (and each of 70 service signing names) x the credential scoped for each of them x carrier. Oracle: reference verifier (Ok iff all five parts right; arity => IncompleteSignature/400; other mismatch => SignatureDoesNotMatch/403 also in mode A; provider asked iff scope fully correct, with (access key, token, UTC date, server region, server service)). states = distinct (stage, kind, provider ask)",
+            "(1) five-part credentials: 12 date variants (exact, -1 day, +1 day, 7 digits, trailing space, extended, empty, written-local date, and the numerically equal spellings +D, 0D, 00D, D.0) x 12 near-misses each of region, service and terminator (exact, prefix, suffix, x+v, v+x, UPPER, empty, look-alike, trailing blank, leading blank, lower, case-swapped) x {} server (region, service) pairs (incl. a mixed-case one, empty strings, non-ASCII and 300-character values) x {} request instants (incl. 23:59:59Z, 00:00:00Z and offsets whose UTC date differs from the written date) x signing mode A (correctly signed under the credential's own scope; provider returns that key unconditionally) / B (signed under the server's scope) x carrier; (1b) timestamps ten minutes (or thirty seconds) from local midnight written with 12 offsets of either sign from 00:01 to 14:00 (sub-hour ones included), basic and extended, so that the UTC date differs from the written date: the credential dated with the UTC date is accepted, the one dated with the written date refused; (1c) timestamps on the last second of a UTC day with fractions of 1..13 nines, nine nines followed by each digit, and other fractions that a rounding reader would carry over: the date is that of the written second; (2) credentials of 1..8 parts, with leading/trailing/double slashes, empty access key and no slash at all, five-part credentials in which the slash between two adjacent elements is moved by one or two characters (their concatenation unchanged), and credentials whose correct five-part text ends exactly at / next to lengths 64 .. 65536 followed by a sixth part or a longer terminator; (3) every sequence of 1..3 validations on one thread over 50 symbols (5 server configurations, one differing from another in letter case only, x credential scoped for any of the 5 x carrier): each judged as if it were alone; (4) 9 access keys (case variant, inner / trailing blank, literal percent signs, non-ASCII, one character) x 10 session tokens (none, reserved characters, literal percent signs, inner blanks, commas, non-ASCII, 4 kB, case variant, trailing blank) x carrier x token signed or not: the provider is asked for exactly that access key and token; (4d) the session-token input of the OTHER carrier as a decoy (an X-Amz-Security-Token query / form parameter next to header authentication, the header next to query authentication) against a store indexed by (key, token): asked without a token; (4b) 6 access keys (incl. the AKIA / ASIA / AROA / AIDA prefixes of real key ids) x 3 tokens (none, a stale one, empty) x a key store indexed by the exact (key, token) pair holding each of the 16 subsets of (key alone, key with this token, key with another token, another key with this token) x every error it can answer an unknown pair with (all SignatureError kinds, an io::Error, a string) x 8 identities attached to its answers x carrier: refused with that error unless the store holds the request's own pair, and the store is asked exactly once; (4c) the server configured for each of 62 AWS region codes / pseudo-regions (and each of 70 service signing names) x the credential scoped for each of them x carrier. Oracle: reference verifier (Ok iff all five parts right; arity => IncompleteSignature/400; other mismatch => SignatureDoesNotMatch/403 also in mode A; provider asked iff scope fully correct, with (access key, token, UTC date, server region, server service)). states = distinct (stage, kind, provider ask)",
             n_serv, n_inst
         ),
         bounds: json!({"servers": n_serv, "instants": n_inst, "cases": total1 + total2}),
